@@ -22,9 +22,10 @@ type progOpts struct {
 	noOTmp     bool
 	nGateways  int
 	tune       func(g *prog.Gen)
-	gen        func(g *prog.Gen, i int) []*prog.Op // optional custom program generator
-	setupOps   func(g *prog.Gen) []*prog.Op        // run before the readonly switch (if readonlyAfter)
-	readonly   bool                                // restart the gateways read-only after setupOps
+	gen        func(g *prog.Gen, i int) []*prog.Op                  // optional custom program generator
+	next       func(g *prog.Gen, i int, hist []*prog.Step) *prog.Op // optional adaptive generator
+	setupOps   func(g *prog.Gen) []*prog.Op                         // run before the readonly switch (if readonlyAfter)
+	readonly   bool                                                 // restart the gateways read-only after setupOps
 	classify   func(s *prog.Step, class string) (kind, sig string)
 	seedOff    int64
 }
@@ -124,7 +125,9 @@ func runPrograms(a lib.Args, res *lib.Result, po progOpts) error {
 			}
 		}
 		var steps []*prog.Step
-		if po.readonly {
+		if po.next != nil {
+			steps, err = prog.RunAdaptive(w, a.Driver, setup, func(h []*prog.Step) *prog.Op { return po.next(g, i, h) })
+		} else if po.readonly {
 			var mut []string
 			steps, mut, err = runReadonly(w, a.Driver, cfg, setup, ops, body, start)
 			for _, m := range mut {
